@@ -455,9 +455,9 @@ func (c10) Gen(tier string, seed int64) []fw.Unit {
 		add("1d-length", Req{Fam: "ean", S: randBytes(r, n, digitsAB)})
 	}
 	// random valid requests: everything must be accepted
-	nv := 400
+	nv := 2000
 	if tier == "thorough" {
-		nv = 4000
+		nv = 20000
 	}
 	for i := 0; i < nv; i++ {
 		add("random-valid", randomValidReq(r, families[i%len(families)], -1))
